@@ -124,6 +124,35 @@ def main(tier):
         chk.evaluations += 1
         if lhs != rhs:
             chk.add_failure(S.show(sx), {"what": "can_optimize(p) differs from optimize(p) != p", "can_optimize": lhs}, None)
+    # ---- a predicate that has been USED (tabulated, evaluated, optimised, drawn) against a fresh one built the same way:
+    # whatever the use left behind, if the two still compare equal they must still answer alike (nothing that changes
+    # the answer may be hidden from ==)
+    from predicate import to_dot, to_json
+    from predicate.truth_table import truth_table
+
+    leaves = [("var", n, v) for n in ("a", "b") for v in ("0", "1")] + ["tt"]
+    used_cases = 0
+    uses = {
+        "list(truth_table(p))": lambda q: list(truth_table(q)),
+        "next(truth_table(p)) twice": lambda q: [r for _k, r in zip(range(2), truth_table(q))],
+        "p(None)": lambda q: q(None),
+        "optimize(p)": lambda q: optimize(q),
+        "to_json(p); to_dot(p)": lambda q: (to_json(q), to_dot(q)),
+    }
+    for sx in cases.trees_upto(3, leaves):
+        for uname, use in uses.items():
+            used, fresh = lift.lower(sx), lift.lower(sx)
+            try:
+                use(used)
+            except Exception:  # noqa: BLE001
+                continue
+            used_cases += 1
+            if used == fresh or fresh == used:
+                r1, r2 = safe_call(used, None), safe_call(fresh, None)
+                if r1[0] == "ok" and r2[0] == "ok" and r1 != r2:
+                    chk.add_failure(f"p = {S.show(sx)} built twice; {uname} on one of them", {"what": "the used predicate and the fresh one compare equal but answer differently", "used": r1, "fresh": r2}, None)
+    chk.evaluations += used_cases
+    chk.extra["used_vs_fresh_cases"] = used_cases
     chk.extra["equal_pairs_checked_on_values"] = eq_pairs
     chk.extra["probe_values_skipped_because_a_side_raises"] = undefined
     chk.extra["can_optimize_cases"] = co
